@@ -19,6 +19,10 @@ class AbstractOnlineInterpreter(AbstractInterpreter):
 
         # reset spec
         self.resetVisitor.visitAst(self.ast, self.online_operator_dict)
+
+        # forget the input values supplied before the reset
+        for var in self.ast.free_vars:
+            self.ast.var_object_dict[var] = self.ast.create_var_from_name(var)
         return
 
     def set_ast(self, ast):
